@@ -232,30 +232,30 @@ def params_for(fam, rng, extra):
 def correspondence(ctx):
     p = P()
     rng = ctx.rng
-    widen = ctx.widen
+    deep = ctx.thorough or ctx.widen      # untranslatable items: widen the sweep to the thorough one
+    scale = (lambda q, t: t) if deep else ctx.scale
     _clear_caches()
 
     # ---------------- 1. every evaluator vs the Float model, every order, several layouts
     lines, meta = [], []
-    nstep = 1 if (ctx.thorough or widen) else 1
     for fam, (impl, drv, (lo, hi), maxn, exact) in FAMS.items():
-        plist = params_for(fam, rng, ctx.scale(2, 12))
-        orders = list(range(0, maxn + 1, nstep))
+        plist = params_for(fam, rng, scale(2, 12))
+        orders = list(range(0, maxn + 1))
         for n in orders:
             # quick: rotate parameters / layouts over the orders; thorough: all parameters, all layouts
-            ps = plist if ctx.thorough else [plist[(n + i) % len(plist)] for i in range(min(2, len(plist)))]
+            ps = plist if deep else [plist[(n + i) % len(plist)] for i in range(min(2, len(plist)))]
             for k in ps:
                 lay = layouts(rng, lo, hi)
-                lays = lay if ctx.thorough else [lay[(n + j) % len(lay)] for j in range(2)]
+                lays = lay if deep else [lay[(n + j) % len(lay)] for j in range(2)]
                 for (lname, pts) in lays:
                     flat = np.asarray(pts, dtype=float).ravel()
                     lines.append(fline(drv, [n], k, flat))
                     meta.append((fam, n, k, lname, pts))
     # Zernike / XY / Hopkins
     zcases = []
-    for n in range(0, ctx.scale(14, 30)):
+    for n in range(0, scale(14, 30)):
         for m in range(-n, n + 1, 2):
-            if not ctx.thorough and (n + m // 2) % 3 == 2 and n > 6:
+            if not deep and (n + m // 2) % 3 == 2 and n > 6:
                 continue
             zcases.append((n, m))
     for (n, m) in zcases:
@@ -266,7 +266,7 @@ def correspondence(ctx):
         flat = np.asarray(pts, dtype=float).ravel()
         lines.append(fline('zern', [n, m, norm], [t], flat))
         meta.append(('zern', (n, m, norm), (t,), lname, pts))
-    for (m, n) in itertools.product(range(0, ctx.scale(6, 10)), repeat=2):
+    for (m, n) in itertools.product(range(0, scale(6, 10)), repeat=2):
         lay = layouts(rng, -2, 2)
         lname, pts = lay[(m + 2 * n) % len(lay)]
         y = float(dyadic(rng, -2, 2, ()))
@@ -310,11 +310,11 @@ def correspondence(ctx):
                          note=f'shape {np.shape(out)} vs {np.shape(pts)}')
 
     # ---------------- 2. textbook definitions on the real code (the property's own predicate)
-    nmax_tb = ctx.scale(16, 30)
+    nmax_tb = scale(16, 30)
     for fam, (impl, drv, (lo, hi), maxn, exact) in FAMS.items():
         plist = params_for(fam, rng, 0)
         for n in range(0, min(maxn, nmax_tb) + 1):
-            ps = plist if ctx.thorough else [plist[(n + i) % len(plist)] for i in range(min(3, len(plist)))]
+            ps = plist if deep else [plist[(n + i) % len(plist)] for i in range(min(3, len(plist)))]
             for k in ps:
                 pts = dyadic(rng, lo, hi, (4,))
                 if fam.startswith('cheby'):
@@ -356,7 +356,7 @@ def correspondence(ctx):
             ctx.pred_fail('textbook:jacobi-reflect', {**case, 'points': x.tolist()}, 'P_n^(a,b)(-x) != (-1)^n P_n^(b,a)(x)')
     # Zernike radial textbook sum + norm
     for (n, m) in zcases:
-        if n > ctx.scale(14, 24):
+        if n > scale(14, 24):
             continue
         r = dyadic(rng, 0, 1, (4,))
         t = float(dyadic(rng, -3, 3, ()))
@@ -372,7 +372,7 @@ def correspondence(ctx):
 
     # ---------------- 3. exact arithmetic: prysm on Fraction object arrays vs the Rat model
     qlines, qmeta = [], []
-    emax = ctx.scale(14, 40)
+    emax = scale(14, 40)
     for fam, (impl, drv, (lo, hi), maxn, exact) in FAMS.items():
         if not exact:
             continue
@@ -418,7 +418,7 @@ def correspondence(ctx):
     J = importlib.import_module('prysm.polynomials.jacobi')
     Q = importlib.import_module('prysm.polynomials.qpoly')
     lines, meta = [], []
-    for n in range(1, ctx.scale(60, 200)):
+    for n in range(1, scale(60, 200)):
         a, b = JAC_PARAMS[n % len(JAC_PARAMS)]
         lines.append(f'abc {n} | {C.f2w(a)} {C.f2w(b)}')
         meta.append(('abc', n, a, b))
